@@ -36,6 +36,8 @@ THEOREMS = [
     ("c12_display", "forall s : bitset, exists str, display s = Some str /\\ String.length str = (64 * length s)%nat /\\ forall i, i < cap s -> String.get (N.to_nat i) str = Some (if mem s i then \"1\"%char else \"0\"%char)"),
     ("c12_history", "forall nw : nat, N.of_nat nw < 2 ^ 58 -> forall ops : list op, Forall op_ok ops -> run (word_impl nw) (init (word_impl nw)) ops = run (naive_impl nw) (init (naive_impl nw)) ops"),
     ("c12_model_check_spec_check", "forall c : case, case_ok c -> model_check c = true -> spec_check c = true"),
+    ("c12_enc_display", "forall ws : bitset, display ws = Some (bits_str ws)"),
+    ("c12_enc_members", "forall ws : bitset, idx_list 0 ws = filter (mem ws) (indices ws)"),
 ]
 RULE = ("histories of 1-40 operations on four Bitset<N> registers, N in {1,2,3,10}: new / from_u64 (0, 1, 2^63, all ones, "
         "alternating, random) / set / remove / flip / test / clear / count / iter_bits (all items + two calls after the end) / "
@@ -97,10 +99,21 @@ def obs_term(tok):
     if tok[0] == "n":
         return "VNum %s" % n_(tok[1:])
     if tok[0] == "l":
-        e, items = tok[1], tok[3:]
-        return "VList [%s] %s" % ("; ".join(n_(x) for x in items.split(",") if x), "true" if e == "1" else "false")
+        e, items = tok[1], [int(x) for x in tok[3:].split(",") if x]
+        ended = "true" if e == "1" else "false"
+        if len(items) > 12 and all(a < b for a, b in zip(items, items[1:])) and items[-1] < 64 * 16:
+            # compact form of the same strictly ascending list (Corr.idx_list)
+            ws = [0] * (items[-1] // 64 + 1)
+            for v in items:
+                ws[v // 64] |= 1 << (v % 64)
+            return "VList (idx_list 0%%N [%s]) %s" % ("; ".join(n_(w) for w in ws), ended)
+        return "VList [%s] %s" % ("; ".join(n_(x) for x in items), ended)
     if tok[0] == "s":
-        return 'VStr "%s"%%string' % tok[1:]
+        t = tok[1:]
+        if t and len(t) % 64 == 0 and set(t) <= {"0", "1"}:
+            # compact form of the same string (Corr.bits_str): char 64k+j = bit j of the k-th number
+            return "VStr (bits_str [%s])" % "; ".join(n_(int(t[k:k + 64][::-1], 2)) for k in range(0, len(t), 64))
+        return 'VStr "%s"%%string' % t
     raise ValueError(tok)
 
 
@@ -280,11 +293,19 @@ def shrink(c):
 
 
 MANIFEST = {
-    "text": "Theorems (Coq, no axioms) about an executable Gallina model of rlib_bitset::Bitset<N> (list of N 64-bit words, "
-            "every NW >= 1): see evidence for the list. The model is tied to the code on every run: the executor replays "
-            "generated histories on Bitset<1>, <2>, <3>, <10> and Coq proves model = implementation and "
-            "implementation = naive list-of-booleans set on every case.",
-    "level_note": "Trusted: Coq kernel + vm_compute; the Rust executor and the Python case printer; arrays are lists, usize "
-                  "is unbounded N; theorems are about the model, the correspondence is sampled.",
+    "text": "Coq theorems (25, no axioms) about an executable Gallina model of rlib_bitset::Bitset<N> (list of N words < 2^64, "
+            "any N): set/remove/flip change membership exactly at x and panic out of range (c12_set/remove/flip), test = "
+            "membership (c12_test), clear/new/from_u64, &,|,^ pointwise in both operator forms (c12_and/or/xor, c12_bin_ref), "
+            "complement stays below 2^64 per word (c12_not), count = number of members (c12_count), the iterator as coded "
+            "(skip loop, trailing_zeros) terminates and yields exactly the members in strictly ascending order, each once, "
+            "then None forever (c12_iter_bits, c12_next), == iff same set (c12_eq), Display/Debug = characteristic string "
+            "(c12_display), and every operation history shows the same observations as a naive list-of-booleans set "
+            "(c12_history, hence model_check -> spec_check). Tied to the code on every run: generated histories on "
+            "Bitset<1>,<2>,<3>,<10> are executed by the real crate and Coq proves model = implementation and "
+            "implementation = naive set on every case.",
+    "level_note": "Trusted: Coq kernel + vm_compute; the Rust executor and the Python case printer (its two compact notations "
+                  "for observed strings/lists are proved to denote the rendering/member list: c12_enc_*); arrays are lists, "
+                  "usize is unbounded N with 64*N < 2^64 assumed for the iterator; theorems are about the model, the "
+                  "correspondence is sampled (2.3k histories quick, 30k thorough).",
     "technique": "Coq proof over Gallina model + vm_compute correspondence batches against the Rust crate",
 }
